@@ -29,6 +29,7 @@ package client
 //@   callsite[C01,C05,C08,C13] mapDynamoToTypesDeleteItemInput: arg.input == input
 //@   callsite[C01,C05,C08,C13] (*Table).Delete: arg.t == fd.tables[old(input.TableName == nil ? "" : *input.TableName)] && arg.input != nil && arg.input.ConditionExpression == old(input.ConditionExpression) &&
 //@                dom(arg.input.Key) == old(dom(input.Key)) && dom(arg.input.ExpressionAttributeValues) == old(dom(input.ExpressionAttributeValues))
+//@   callsite[C05,C17] (*Table).Delete: SameAliases(arg.input.ExpressionAttributeNames, old(input.ExpressionAttributeNames))
 //@   ensures[C15] old(fd.forceFailureErr) != nil ==> result1 == old(fd.forceFailureErr) && unchangedAll()
 //@ func (*Client).UpdateItem
 //@   partial
@@ -322,11 +323,25 @@ package client
 //@   ensures[C01,C05] (result == nil) == (input == nil)
 //@   ensures[C01,C05] input != nil ==> fresh(result) && result.ConditionExpression == input.ConditionExpression && result.ExpressionAttributeNames == input.ExpressionAttributeNames &&
 //@                dom(result.Item) == dom(input.Item) && dom(result.ExpressionAttributeValues) == dom(input.ExpressionAttributeValues)
+// SameAliases: the converted alias map binds every name of the request's map to the same text
+//@ pred SameAliases(r map[string]*string, a map[string]string) := forall k string :: {k in r} {r[k]} ((k in r) == (k in a)) && (k in a && a[k] != "" ==> r[k] != nil && *r[k] == a[k])
+//@ func toString
+//@   inline
+//@ func mapDynamoToTypesStringMap
+//@   ensures[C01,C05,C17] (result == nil) == (len(input) == 0)
+//@   ensures[C01,C05,C17] result != nil ==> fresh(result)
+//@   ensures[C01,C05,C17] SameAliases(result, input)
+//@   ensures[C01,C05,C17] forall k string :: {result[k]} k in result && result[k] != nil ==> fresh(result[k])
+//@   loop 1:
+//@     invariant fresh(output) && output != nil
+//@     invariant forall k string :: {k in output} {output[k]} ((k in output) == (k in visited)) && (k in visited && input[k] != "" ==> output[k] != nil && fresh(output[k]) && *output[k] == input[k])
+//@     invariant forall k string :: {output[k]} k in output && output[k] != nil ==> fresh(output[k])
 //@ func mapDynamoToTypesDeleteItemInput
 //@   partial
 //@   ensures[C01,C05] (result == nil) == (input == nil)
 //@   ensures[C01,C05] input != nil ==> fresh(result) && result.ConditionExpression == old(input.ConditionExpression) &&
 //@                dom(result.Key) == old(dom(input.Key)) && dom(result.ExpressionAttributeValues) == old(dom(input.ExpressionAttributeValues))
+//@   ensures[C01,C05,C17] input != nil ==> SameAliases(result.ExpressionAttributeNames, old(input.ExpressionAttributeNames))
 //@ func mapDynamoToTypesUpdateItemInput
 //@   partial
 //@   requires input != nil
